@@ -457,7 +457,7 @@ def tls13_server(sock, deviation, chain_der, sign_d, other_d=54321, mut=None):
     srandom = bytes((i * 17 + 9) & 255 for i in range(32))
     if deviation == "sid_not_echoed": sid = bytes([b ^ 1 for b in sid]) if sid else b"\x01"
     suite13 = b"\xc0\x2f" if deviation == "suite_unknown" else (b"\x13\x01" if deviation == "suite_not_offered" else b"\x00\xc6")
-    if deviation == "version_other": exts = ext(43, b"\x03\x03") + exts[7:]
+    if deviation == "version_other": exts = ext(43, b"\x03\x03") + exts[6:]
     if deviation == "no_key_share": exts = ext(43, b"\x03\x04")                       # a ServerHello that selects TLS 1.3 but carries no key_share at all
     if deviation == "key_share_empty": exts = ext(43, b"\x03\x04") + ext(51, b"")
     comp13 = b"\x01" if deviation == "compression_nonzero" else b"\x00"
